@@ -6,9 +6,12 @@ repo = sys.argv[1] if len(sys.argv) > 1 else '/repo'
 b = json.load(open('/root/.vp/BASELINE.json'))
 out = tempfile.mktemp(suffix='.junit.xml')
 env = dict(os.environ); env.pop('LOKI_VERIF', None)
+import shutil
+base = tempfile.mkdtemp(prefix='bc-basetemp.')   # private basetemp: other pytest sessions / cleanups cannot interfere
 subprocess.run(['/venv/bin/python', '-m', 'pytest', '-q', '-p', 'no:cacheprovider', '--timeout=900',
-                '--continue-on-collection-errors', f'--junitxml={out}'] + sys.argv[2:], cwd=repo, env=env,
+                '--continue-on-collection-errors', f'--junitxml={out}', f'--basetemp={base}/t'] + sys.argv[2:], cwd=repo, env=env,
                stdout=subprocess.DEVNULL, stderr=subprocess.DEVNULL)
+shutil.rmtree(base, ignore_errors=True)
 passed = set()
 for tc in ET.parse(out).getroot().iter('testcase'):
     if not any(ch.tag in ('failure', 'error', 'skipped') for ch in tc):
